@@ -258,7 +258,8 @@ MUTANTS += [
     dict(prop="C18", name="float-sign-from-batch", file=SO,
          old='    signs = np.where(is_negative, -1, +1)\n    return signs*base_numbers / powers', new='    signs = np.where(is_negative | (is_negative.any() if len(is_negative) > 6 else False), -1, +1)\n    return signs*base_numbers / powers'),
     dict(prop="C18", name="scientific-rows-misassigned", file=SO,
-         old="        numbers[scientific] = _scientific_str_to_float(number_text[scientific])", new="        numbers[scientific] = _scientific_str_to_float(number_text[scientific])[::-1] if scientific.sum() == 3 else _scientific_str_to_float(number_text[scientific])"),
+         old="        numbers[scientific] = _parse_part(_scientific_str_to_float, number_text[scientific], number_text, np.flatnonzero(scientific))",
+         new="        numbers[scientific] = _parse_part(_scientific_str_to_float, number_text[scientific], number_text, np.flatnonzero(scientific))[::-1 if scientific.sum() == 3 else 1]"),
     dict(prop="C18", name="int-list-row-length", file=SO,
          old="    row_lens = lengths.sum(axis=-1)+int_lists.lengths", new="    row_lens = lengths.sum(axis=-1)+np.maximum(int_lists.lengths, 1)"),
     dict(prop="C18", name="missing-value-only-all-dots", file=SO,
@@ -556,7 +557,8 @@ MUTANTS += [
     dict(prop="C20", name="str-to-int-no-copy", file=SO,
          old="    number_text = as_encoded_array(number_text).copy()", new="    number_text = as_encoded_array(number_text)"),
     dict(prop="C20", name="str-to-float-skips-index-copy", file=SO,
-         old="        numbers[~scientific] = _decimal_str_to_float(number_text[~scientific])", new="        numbers[~scientific] = _decimal_str_to_float(number_text if not np.any(scientific) else number_text[~scientific])"),
+         old="        numbers[~scientific] = _parse_part(_decimal_str_to_float, number_text[~scientific], number_text, np.flatnonzero(~scientific))",
+         new="        numbers[~scientific] = _parse_part(_decimal_str_to_float, number_text if not np.any(scientific) else number_text[~scientific], number_text, np.flatnonzero(~scientific))"),
     dict(prop="C20", name="merge-stops-in-place (seeded C08-a)", file=IV,
          old="    stops = np.maximum.accumulate(intervals.stop)\n", new="    stops = intervals.stop\n    if np.any(stops[1:] < stops[:-1]):\n        stops = np.maximum.accumulate(stops)\n"),
     dict(prop="C20", name="field-lengths-in-place (seeded C20-a)", file=FB,
